@@ -11,6 +11,7 @@ import (
 
 	"github.com/awslabs/operatorpkg/status"
 	corev1 "k8s.io/api/core/v1"
+	apierrors "k8s.io/apimachinery/pkg/api/errors"
 	"k8s.io/apimachinery/pkg/api/resource"
 	metav1 "k8s.io/apimachinery/pkg/apis/meta/v1"
 	clock "k8s.io/utils/clock/testing"
@@ -37,24 +38,33 @@ type jPool struct {
 	Static   bool      `json:"static,omitempty"`
 	Replicas int       `json:"replicas,omitempty"`
 	Limit    *int      `json:"node_limit,omitempty"`
+	// optional fields of the NodePool the disruption code reads
+	Policy          string `json:"consolidation_policy,omitempty"` // "" = WhenEmptyOrUnderutilized | WhenEmpty | Balanced
+	NoConsolidation bool   `json:"consolidate_after_never,omitempty"`
+	Unmanaged       bool   `json:"foreign_node_class,omitempty"` // nodeClassRef of a kind the provider does not support: not listed
+	NoInstanceTypes bool   `json:"no_instance_types,omitempty"`
 }
 
 type jNode struct {
-	ID        int    `json:"id"`
-	Pool      int    `json:"pool"` // pool id; 0 = a pool name that is not listed
-	Managed   bool   `json:"managed"`
-	HasNode   bool   `json:"has_node"`
-	Init      bool   `json:"initialized"`
-	Term      bool   `json:"instance_terminating"`
-	Ready     string `json:"ready"` // True | False | Unknown | "" (condition missing)
-	Marked    bool   `json:"marked_for_deletion"`
-	Deleting  bool   `json:"nodeclaim_deleting"`
-	NodeDel   bool   `json:"node_deleting,omitempty"`
-	Drifted   bool   `json:"drifted,omitempty"`
-	Pods      int    `json:"pods,omitempty"`
-	Nominated bool   `json:"nominated,omitempty"`
-	Pinned    bool   `json:"pods_pinned,omitempty"`    // the pods select a label only this node has: they cannot move
-	Anchor    bool   `json:"do_not_disrupt,omitempty"` // spare capacity that is never a candidate
+	ID                int    `json:"id"`
+	Pool              int    `json:"pool"` // pool id; 0 = a pool name that is not listed
+	Managed           bool   `json:"managed"`
+	HasNode           bool   `json:"has_node"`
+	Init              bool   `json:"initialized"`
+	Term              bool   `json:"instance_terminating"`
+	Ready             string `json:"ready"` // True | False | Unknown | "" (condition missing)
+	Marked            bool   `json:"marked_for_deletion"`
+	Deleting          bool   `json:"nodeclaim_deleting"`
+	NodeDel           bool   `json:"node_deleting,omitempty"`
+	Drifted           bool   `json:"drifted,omitempty"`
+	Pods              int    `json:"pods,omitempty"`
+	Nominated         bool   `json:"nominated,omitempty"`
+	Unregistered      bool   `json:"unregistered,omitempty"`       // Node without the registered label
+	NotConsolidatable bool   `json:"not_consolidatable,omitempty"` // NodeClaim condition Consolidatable is not True
+	BufferPods        bool   `json:"buffer_pods,omitempty"`        // the provisioner placed virtual buffer pods here
+	BigPods           bool   `json:"big_pods,omitempty"`           // pods of 9 CPU: two of them do not share a node
+	Pinned            bool   `json:"pods_pinned,omitempty"`        // the pods select a label only this node has: they cannot move
+	Anchor            bool   `json:"do_not_disrupt,omitempty"`     // spare capacity that is never a candidate
 }
 
 func poolName(id int) string {
@@ -77,16 +87,59 @@ type world struct {
 	claims   map[int]*v1.NodeClaim
 	nodes    map[int]*corev1.Node
 	it       *cloudprovider.InstanceType
+	faults   *faultPlan
+	buffer   map[string]int
+}
+
+// faultPlan: API calls the interceptor fails (each entry fires as often as its count says).
+type faultPlan struct {
+	listNodePools int            // the k-th List(NodePoolList) from now fails (0 = none)
+	patchNode     map[string]int // Patch(Node name) fails: the disruption taint cannot be set
+	createClaim   int            // Create(NodeClaim) fails: the replacement cannot be launched
+	conflict      bool           // the patch fails with 409 Conflict instead of 500
+	suspended     bool           // the harness itself is using the client (events it applies never fail)
 }
 
 func newWorld(now int64) *world {
 	w := &world{ctx: kit.Context(), clk: clock.NewFakeClock(time.Unix(0, now)), cp: fake.NewCloudProvider(),
 		recorder: test.NewEventRecorder(), pools: map[int]*v1.NodePool{}, claims: map[int]*v1.NodeClaim{}, nodes: map[int]*corev1.Node{}}
-	w.c = kit.NewClient(interceptor.Funcs{})
-	// one instance type, plenty of room: scheduling simulations succeed whenever pods have somewhere to go
+	w.faults = &faultPlan{patchNode: map[string]int{}}
+	w.buffer = map[string]int{}
+	w.c = kit.NewClient(interceptor.Funcs{
+		List: func(ctx context.Context, c client.WithWatch, list client.ObjectList, opts ...client.ListOption) error {
+			if _, ok := list.(*v1.NodePoolList); ok && !w.faults.suspended && w.faults.listNodePools > 0 {
+				w.faults.listNodePools--
+				if w.faults.listNodePools == 0 {
+					return apierrors.NewInternalError(fmt.Errorf("injected: list nodepools"))
+				}
+			}
+			return c.List(ctx, list, opts...)
+		},
+		Patch: func(ctx context.Context, c client.WithWatch, obj client.Object, patch client.Patch, opts ...client.PatchOption) error {
+			if n, ok := obj.(*corev1.Node); ok && !w.faults.suspended && w.faults.patchNode[n.Name] > 0 {
+				w.faults.patchNode[n.Name]--
+				if w.faults.conflict {
+					return apierrors.NewConflict(corev1.Resource("nodes"), n.Name, fmt.Errorf("injected: patch node"))
+				}
+				return apierrors.NewInternalError(fmt.Errorf("injected: patch node"))
+			}
+			return c.Patch(ctx, obj, patch, opts...)
+		},
+		Create: func(ctx context.Context, c client.WithWatch, obj client.Object, opts ...client.CreateOption) error {
+			if _, ok := obj.(*v1.NodeClaim); ok && !w.faults.suspended && w.faults.createClaim > 0 {
+				w.faults.createClaim--
+				return apierrors.NewInternalError(fmt.Errorf("injected: create nodeclaim"))
+			}
+			return c.Create(ctx, obj, opts...)
+		},
+	})
+	// it-a: plenty of room, scheduling simulations succeed whenever pods have somewhere to go;
+	// it-small: a cheaper type, so that replace decisions exist when there is no spare capacity
 	w.it = fake.NewInstanceType("it-a", fake.WithResources(corev1.ResourceList{
 		corev1.ResourceCPU: resource.MustParse("16"), corev1.ResourceMemory: resource.MustParse("64Gi"), corev1.ResourcePods: resource.MustParse("100")}))
-	w.cp.InstanceTypes = []*cloudprovider.InstanceType{w.it}
+	small := fake.NewInstanceType("it-small", fake.WithResources(corev1.ResourceList{
+		corev1.ResourceCPU: resource.MustParse("2"), corev1.ResourceMemory: resource.MustParse("8Gi"), corev1.ResourcePods: resource.MustParse("20")}))
+	w.cp.InstanceTypes = []*cloudprovider.InstanceType{w.it, small}
 	w.cluster = state.NewCluster(w.clk, w.c, w.cp)
 	w.prov = provisioning.NewProvisioner(w.c, w.recorder, w.cp, w.cluster, w.clk, deviceallocation.NewController(w.c), virtualpods.NewVirtualPodCache(w.c))
 	w.queue = disruption.NewQueue(w.c, w.recorder, w.cluster, w.clk, w.prov)
@@ -97,6 +150,18 @@ func (w *world) addPool(p jPool) {
 	np := test.NodePool(v1.NodePool{ObjectMeta: metav1.ObjectMeta{Name: p.Name}})
 	np.Spec.Disruption.ConsolidateAfter = v1.MustParseNillableDuration("0s")
 	np.Spec.Disruption.ConsolidationPolicy = v1.ConsolidationPolicyWhenEmptyOrUnderutilized
+	if p.Policy != "" {
+		np.Spec.Disruption.ConsolidationPolicy = v1.ConsolidationPolicy(p.Policy)
+	}
+	if p.NoConsolidation {
+		np.Spec.Disruption.ConsolidateAfter = v1.MustParseNillableDuration("Never")
+	}
+	if p.Unmanaged {
+		np.Spec.Template.Spec.NodeClassRef = &v1.NodeClassReference{Group: "example.com", Kind: "ForeignNodeClass", Name: "x"}
+	}
+	if p.NoInstanceTypes {
+		w.cp.InstanceTypesForNodePool[p.Name] = []*cloudprovider.InstanceType{}
+	}
 	np.Spec.Disruption.Budgets = nil
 	for _, b := range p.Budgets {
 		np.Spec.Disruption.Budgets = append(np.Spec.Disruption.Budgets, b.toAPI())
@@ -152,7 +217,11 @@ func (w *world) addNode(n jNode) {
 	if n.Init {
 		cs.SetTrue(v1.ConditionTypeInitialized)
 	}
-	cs.SetTrue(v1.ConditionTypeConsolidatable)
+	if n.NotConsolidatable {
+		cs.SetFalse(v1.ConditionTypeConsolidatable, "NotYet", "NotYet")
+	} else {
+		cs.SetTrue(v1.ConditionTypeConsolidatable)
+	}
 	if n.Drifted {
 		cs.SetTrue(v1.ConditionTypeDrifted)
 	}
@@ -177,7 +246,9 @@ func (w *world) addNode(n jNode) {
 		for k, v := range labels {
 			nl[k] = v
 		}
-		nl[v1.NodeRegisteredLabelKey] = "true"
+		if !n.Unregistered {
+			nl[v1.NodeRegisteredLabelKey] = "true"
+		}
 		nl["verif/pin"] = name
 		if n.Init {
 			nl[v1.NodeInitializedLabelKey] = "true"
@@ -188,6 +259,7 @@ func (w *world) addNode(n jNode) {
 		}
 		node := test.Node(test.NodeOptions{ObjectMeta: metav1.ObjectMeta{Name: name, Labels: nl, Annotations: ann, Finalizers: []string{"karpenter.sh/test-finalizer"}},
 			ProviderID: providerID(n.ID), Allocatable: alloc, Capacity: alloc})
+		node.Namespace = "" // Nodes are cluster scoped (the code looks them up by name only)
 		switch n.Ready {
 		case "":
 			node.Status.Conditions = nil
@@ -218,7 +290,7 @@ func (w *world) addNode(n jNode) {
 			ObjectMeta: metav1.ObjectMeta{Name: fmt.Sprintf("pod-%03d-%d", n.ID, i), Namespace: "default",
 				OwnerReferences: []metav1.OwnerReference{{APIVersion: "apps/v1", Kind: "ReplicaSet", Name: "rs", UID: "rs-uid", Controller: ptr(true), BlockOwnerDeletion: ptr(true)}}},
 			NodeName:             name,
-			ResourceRequirements: corev1.ResourceRequirements{Requests: corev1.ResourceList{corev1.ResourceCPU: resource.MustParse("100m")}},
+			ResourceRequirements: corev1.ResourceRequirements{Requests: corev1.ResourceList{corev1.ResourceCPU: resource.MustParse(map[bool]string{false: "100m", true: "9"}[n.BigPods])}},
 			Phase:                corev1.PodRunning,
 		})
 		kit.Apply(w.ctx, w.c, pod)
@@ -228,6 +300,10 @@ func (w *world) addNode(n jNode) {
 	}
 	if n.Marked {
 		w.cluster.MarkForDeletion(providerID(n.ID))
+	}
+	if n.BufferPods {
+		w.buffer[providerID(n.ID)] = 1
+		w.cluster.UpdateBufferPodCounts(w.buffer)
 	}
 	if n.Nominated {
 		w.cluster.NominateNodeForPod(w.ctx, providerID(n.ID))
